@@ -25,3 +25,8 @@ int mythv_desc_detached(void * p) {
 void * mythv_cur_thread(int rank) {
   return g_envs[rank].this_thread;
 }
+
+volatile int * mythv_desc_status_ptr(void * p) {
+  struct myth_thread * th = p;
+  return (volatile int *)&th->status;
+}
